@@ -121,6 +121,20 @@ CHECKS["C34"] = dict(
     technique="Coq proof over gate model + boundary-value correspondence runs (serial and parallel)", design_ref="§38",
 )
 
+CHECKS["C21"] = dict(
+    category="proof",
+    text=("Coq theorems C21_glob_correct (matcher = declarative glob semantics), C21_select_spec (for any register and selector lists the rules "
+          "that run are exactly the registered rules matched by the allow list minus those matched by the deny list, through the reference map "
+          "codes > names > groups > aliases or as a glob over all keys), C21_nometa_literal, and C21_bundled_registry_ok, a kernel-checked "
+          "(vm_compute) fact about the registry translated from /repo on every run: unique codes, no glob metacharacters in keys, no "
+          "name/group/alias shadowed, every rule in group `all`. Correspondence of get_rulepack and of the whole reference map with the model; "
+          "an oracle with Python's own fnmatch; only-selected-rules-report and rule-alone-vs-with-all-others runs on fixtures."),
+    note=("Trusted: Coq kernel/vm_compute, translator harness/gen_rules.py, hand models Model/Glob.v + Model/RuleSelect.v (fnmatch corner "
+          "cases such as reversed ranges are outside the model). Independence of rules is monitored (alone vs together), not proved: rule "
+          "bodies are not modelled. No axioms."),
+    technique="Coq proof + registry translated each run + correspondence with get_rulepack", design_ref="§25",
+)
+
 NOT_YET = "no check built yet in this round (planned: see DESIGN.md section for this property)"
 
 
